@@ -243,6 +243,33 @@ func (stubCcc) MakeConfChangeProposal(req *types.MembershipChange) (*consensus.C
 	return nil, consensus.ErrNotSupportedMethod
 }
 
+// deadlineCtx is a block-generation context whose expiry the harness triggers at a chosen moment (the real one
+// is a context.WithDeadline of the slot: "the deadline passes while candidate i executes" is pure timing there).
+type deadlineCtx struct {
+	done chan struct{}
+	err  error
+}
+
+func (c *deadlineCtx) Deadline() (time.Time, bool)       { return time.Time{}, false }
+func (c *deadlineCtx) Done() <-chan struct{}             { return c.done }
+func (c *deadlineCtx) Value(key interface{}) interface{} { return nil }
+func (c *deadlineCtx) Err() error {
+	select {
+	case <-c.done:
+		return c.err
+	default:
+		return nil
+	}
+}
+func (c *deadlineCtx) fire(err error) {
+	select {
+	case <-c.done:
+	default:
+		c.err = err
+		close(c.done)
+	}
+}
+
 // produced is one block as the producer built it
 type produced struct {
 	blk      *types.Block
@@ -255,7 +282,9 @@ type produced struct {
 // produce = what dpos.BlockFactory.generateBlock / sbp do: block header info from the parent, a block state at the
 // parent root, gas price, receipts fork flag, a BlockGenerator whose tx source is `cands`, GenerateBlock.
 // stops[i] scripts the block factory's own checks for candidate i ("" = none, "tmo" = block timeout,
-// "vmtmo" = contract timeout): they are TxOps composed in front of the executor exactly like checkBpTimeout.
+// "vmtmo" = contract timeout): they are TxOps composed in front of the executor exactly like checkBpTimeout;
+// "dl" / "cancel" make the block-generation context expire (DeadlineExceeded) / be cancelled (shutdown) WHILE
+// candidate i executes: GatherTXs' own checkBGTimeout then sees it (outcome token "ok!" / "err!").
 func (n *node) produce(w *world, parent *types.Block, no types.BlockNo, cands []types.Transaction, stops []string) *produced {
 	w.ts += 1_000_000_000
 	bi := types.NewBlockHeaderInfoFromPrevBlock(parent, w.ts, w.hf)
@@ -274,7 +303,8 @@ func (n *node) produce(w *world, parent *types.Block, no types.BlockNo, cands []
 	for i, c := range cands {
 		idx[string(c.GetHash())] = i
 	}
-	exec := chain.NewTxExecutor(context.Background(), stubCcc{}, nil, bi, contract.BlockFactory)
+	bgCtx := &deadlineCtx{done: make(chan struct{})}
+	exec := chain.NewTxExecutor(bgCtx, stubCcc{}, nil, bi, contract.BlockFactory)
 	txOp := cchain.NewCompTxOp(
 		cchain.TxOpFn(func(bState *state.BlockState, tx types.Transaction) error {
 			i := idx[string(tx.GetHash())]
@@ -296,10 +326,18 @@ func (n *node) produce(w *world, parent *types.Block, no types.BlockNo, cands []
 			} else {
 				p.outcomes[i] = "ok"
 			}
+			switch stops[i] {
+			case "dl":
+				bgCtx.fire(context.DeadlineExceeded)
+				p.outcomes[i] += "!"
+			case "cancel":
+				bgCtx.fire(context.Canceled)
+				p.outcomes[i] += "!"
+			}
 			return err
 		}),
 	)
-	gen := cchain.NewBlockGenerator(nil, context.Background(), bi, bs, txOp, false).
+	gen := cchain.NewBlockGenerator(nil, bgCtx, bi, bs, txOp, false).
 		WithDeco(func(cchain.FetchFn) cchain.FetchFn {
 			return func(component.ICompSyncRequester, uint32) []types.Transaction { return cands }
 		})
@@ -632,6 +670,7 @@ type session struct {
 	names     []nameInfo
 	history   []string // per block: compact description (for the replay)
 	last      *produced
+	stopPos   int
 	reps      int
 }
 
@@ -693,8 +732,10 @@ func script(rng *vh.Rng, ci *contractInfo, accts []*acct, others []*contractInfo
 	switch rng.Intn(12) {
 	case 0:
 		sc["err"] = "vm" // runtime error: the tx stays in the block with an ERROR receipt
-	case 1:
-		sc["err"] = "system" // system error: the tx fails, the producer must skip it
+	case 1, 2:
+		// system error: the tx fails AFTER the VM has charged a fee; the producer must skip it and keep nothing of it
+		sc["err"] = "system"
+		sc["fee"] = fmt.Sprint(1000 + rng.Intn(5)*123456789)
 	}
 	b, _ := json.Marshal(sc)
 	return string(b)
@@ -782,6 +823,9 @@ func (s *session) candidates(bi *types.BlockHeaderInfo) ([]cand, []string) {
 			kind = "deploy"
 			body.Type = types.TxType_DEPLOY
 			body.Payload = []byte(script(rng, nil, w.accts, s.contracts))
+			if strings.Contains(string(body.Payload), `"err":"system"`) {
+				kind = "deploy-syserr"
+			}
 		case k < 48:
 			if len(s.contracts) == 0 {
 				continue
@@ -879,8 +923,11 @@ func (s *session) candidates(bi *types.BlockHeaderInfo) ([]cand, []string) {
 		out = append(out, cand{w.sign(a, body), kind})
 	}
 	stops := make([]string, len(out))
-	if len(out) > 0 && rng.Chance(1, 8) {
-		stops[rng.Intn(len(out))] = []string{"tmo", "vmtmo"}[rng.Intn(2)]
+	if len(out) > 0 && rng.Chance(1, 3) {
+		// the position sweeps over the candidates from block to block, so that every position (first, last, on a
+		// failing candidate, on a succeeding one) is hit
+		s.stopPos++
+		stops[s.stopPos%len(out)] = []string{"dl", "dl", "dl", "tmo", "vmtmo", "cancel"}[rng.Intn(6)]
 	}
 	return out, stops
 }
@@ -1013,6 +1060,9 @@ func (s *session) step() bool {
 		run.Count("tx " + kinds[i] + " " + o)
 	}
 	run.Count(fmt.Sprintf("block v%d txs=%d", bi.ForkVersion, min(len(p.picked), 6)/2*2))
+	if p.bs.BpReward.Sign() > 0 && len(p.blk.GetHeader().GetCoinbaseAccount()) > 0 {
+		run.Count("block credits fees to the coinbase account")
+	}
 	if len(p.blk.GetHeader().GetConsensus()) > 0 {
 		run.Count("block pays a voting reward (winner picked from the voting-power rank)")
 	}
@@ -1170,6 +1220,9 @@ func main() {
 	zerolog.SetGlobalLevel(zerolog.Disabled)
 	run := vh.Start("c02", "nontrivial = a tally of >= 2 candidates / >= 2 pending power changes / a block with >= 1 tx; distinct by (operation, answer) or by block roots")
 	dpos.VerifC02DecorateVotingReward()
+	// a block producer with a coinbase account: the fees of a block (BlockState.BpReward) are credited to it by
+	// SendBlockReward on both paths (the validator takes the account from the header)
+	chain.VerifC02SetCoinbase(append([]byte{2}, bytes.Repeat([]byte{0xCB}, 32)...))
 
 	far := types.BlockNo(1) << 40
 	forks := []struct {
